@@ -12,7 +12,7 @@ BASE_NOTE = ('Trusted: Coq 8.16.1 kernel, vm_compute (no native_compute), no axi
 
 CLAIMED = {
     'C01': dict(design='4 (C01)',
-        text='Theorems (unbounded payload length / message count, every accepted configuration): the reference segmentation of any payload is a well-formed stream (C01_segmentation_wellformed, induction over the Consecutive Frames); any sequence of well-formed streams is delivered in order, exactly once, without error (C01_messages); hence for peers whose prefix sizes agree the receiver fed with the reference segmentation of a message list delivers exactly that list (C01_transfer); recv() is FIFO and removes what it returns (C01_recv_fifo). With C02 (the sender emits the reference segmentation) and C09_mirror (identifiers/prefix accepted by the mirrored address) this is the lossless-transfer statement for schedules in which frames reach the receiver in order with deadlines kept. The joint theorem over every interleaving of the two process() loops is NOT proved: interleavings, flow-control round trips and process() granularity are covered by the two-peer correspondence campaigns (real layers vs two extracted model instances, same schedule).',
+        text='Theorems (unbounded payload length / message count, every accepted configuration): the reference segmentation of any payload is a well-formed stream (C01_segmentation_wellformed, induction over the Consecutive Frames); any sequence of well-formed streams is delivered in order, exactly once, without error (C01_messages); hence for peers whose prefix sizes agree the receiver fed with the reference segmentation of a message list delivers exactly that list (C01_transfer); recv() is FIFO and removes what it returns (C01_recv_fifo); end to end for one multi-frame message under the cooperative schedule: the frames the sender model emits are reassembled by the mirrored receiver into exactly the payload, once, no error on either side, request completed with success (C01_end_to_end_cooperative). With C02 (the sender emits the reference segmentation) and C09_mirror (identifiers/prefix accepted by the mirrored address) this is the lossless-transfer statement for schedules in which frames reach the receiver in order with deadlines kept. The joint theorem over every interleaving of the two process() loops is NOT proved: interleavings, flow-control round trips and process() granularity are covered by the two-peer correspondence campaigns (real layers vs two extracted model instances, same schedule).',
         note='PARTIAL proof: composition of sender-side, wire and receiver-side theorems; the two-peer joint invariant (DESIGN.md appendix A) is not mechanised.'),
     'C10': dict(design='4 (C10)',
         text='Theorems: the transmit state machine never modifies reception state (C10_tx_preserves_rx) and data frames never modify transmission state (C10_rx_preserves_tx); a Flow Control frame only fills the one-slot mailbox and hands over to the transmit pass (C10_fc_only_mailbox); a pass answering with a Flow Control leaves the transmitter untouched (C10_fc_answer_pass); send()/recv() touch only their own side (C10_user_calls); in every reachable state (any interleaving of micro-steps) a non-idle transmitter or receiver has a running deadline or a frame about to leave: no wedge (C10_no_wedge). Delivery per direction then follows from C01. Tied to /repo by duplex campaigns over interleavings of {A.process, A.process(tx only), B.process, B.process(tx only), deliver A->B, deliver B->A, tick} compared with two extracted model instances.',
@@ -21,8 +21,8 @@ CLAIMED = {
         text='One theorem per kind of hit frame: duplicated Single Frame delivered twice without error (C11_dup_single); lost First Frame -> every following Consecutive Frame reported and ignored, nothing delivered (C11_lost_first_frame, induction over the stream); lost or duplicated Consecutive Frame -> sequence gap -> WrongSequenceNumberError, partial message dropped, never delivered (C11_sequence_gap); lost tail / lost Flow Control -> a reception always has a deadline and its expiry abandons it with ConsecutiveFrameTimeoutError (C11_lost_tail_reported), the sender reports FlowControlTimeoutError and fails the request (C11_lost_fc_reported); duplicated ContinueToSend harmless (C11_dup_cts); after the fault the next message is delivered intact from whatever state was left (C11_after_fault); whatever the faults, every delivery of every run is the data of one Single Frame or of one First Frame plus the in-sequence Consecutive Frames accepted after it - never truncated, merged or corrupted (C11_never_corrupted). Tied to /repo by exhaustive fault-position campaigns (every frame index of either direction x {drop, duplicate}) on two real peers vs the extracted model.',
         note='PARTIAL proof: per-fault-kind theorems; "at most the one hit message is missing" over a whole exchange and the duplicated First Frame case are campaign oracles.'),
     'C02': dict(design='4 (C02)',
-        text='Theorems (all configurations, all payloads): every frame of the reference segmentation Spec.Segment.seg is well formed (C02_wellformed); a request that fits produces exactly the Single Frame of the Spec, padded/DLC-rounded as documented (C02_single); otherwise the First Frame of the Spec incl. the 32-bit escape form (C02_first_frame); every later data frame is the next Consecutive Frame of the Spec with the running sequence number (C02_consecutive_frame); refused sends queue nothing (C02_refuse). Tied to /repo by campaigns comparing every emitted frame with the extracted Spec segmentation (cooperative peer, standby/rate-limited, boundary lengths, >4095 escape, 2^32 refusal).',
-        note='The per-frame theorems are one-step facts about start_request / tx_cf composed over a run by the campaign, not by an inductive whole-run theorem; the equality "concatenation of all frames = seg c p" for a complete run is checked, not proved.'),
+        text='Theorems (all configurations, all payloads): every frame of the reference segmentation Spec.Segment.seg is well formed (C02_wellformed); a request that fits produces exactly the Single Frame of the Spec, padded/DLC-rounded as documented (C02_single); otherwise the First Frame of the Spec incl. the 32-bit escape form (C02_first_frame); every later data frame is the next Consecutive Frame of the Spec with the running sequence number (C02_consecutive_frame); refused sends queue nothing (C02_refuse); run level, cooperative peer: driven with a ContinueToSend (any block size / separation time) whenever it waits and with enough time between passes, a multi-frame request emits EXACTLY the reference segmentation, in order, completes once with success and leaves the sender idle (C02_cooperative_run, induction over the Consecutive Frames). Tied to /repo by campaigns comparing every emitted frame with the extracted Spec segmentation (cooperative peer, standby/rate-limited, boundary lengths, >4095 escape, 2^32 refusal).',
+        note='The whole-run equality frames = seg is proved for the cooperative driver (sender-level functions start_request / handle_fc_active / tx_cf with the rate limiter allowing a full frame); other schedules (rate-limited standby, Wait frames, arbitrary interleavings of process() passes) are covered per frame by the one-step theorems and by the campaigns.'),
     'C03': dict(design='4 (C03)',
         text='Theorem C03_reassembly: for every configuration and every well-formed stream (FF + consecutive CFs, any block size, any prefix, any link-layer size, short or escape FF) fed with timers kept, the receiver ends idle with exactly the payload queued, no error; C03_flow_control_frame: the FC sent is CTS with the configured blocksize/stmin, padded per configuration. Induction over the CF list, unbounded length. Tied to /repo by stream campaigns (reference encoder independent of the model) and the K1 correspondence.',
         note='Stream well-formedness (wf_stream) is a Spec predicate; block boundaries and the exact instants of the flow-control frames are covered by fc_answer (one-step) and by the campaign.'),
